@@ -448,6 +448,10 @@ def r6(tree, rep):
 
 
 def run(tree, rep, tier):
+    from .. import ctxmgr
+    ctxmgr.check_with_blocks(tree, rep, "C07.R7", ["src/wormhole/transit.py"])
+    from .. import sharedstate
+    sharedstate.check(tree, rep, "C07.R0")
     r1(tree, rep)
     r2(tree, rep)
     r3(tree, rep)
